@@ -401,13 +401,16 @@ class SInt:
         raise EngineLimit("float() of SInt")
 
     def __str__(self):
-        raise EngineLimit("str() of symbolic int")
+        # only reached through C-level formatting (error / log messages).  A placeholder: if the text were parsed back
+        # the real code would fail where the concrete run does not, which the replay-before-report step rejects.
+        _cur.stats['placeholders'] = _cur.stats.get('placeholders', 0) + 1
+        return "<symbolic int>"
 
     def __repr__(self):
         return "<SInt [%d,%d]>" % (self.lo, self.hi)
 
     def __format__(self, spec):
-        raise EngineLimit("format() of symbolic int")
+        return self.__str__()
 
     def concretize(self):
         """Fork over every feasible concrete value (solver-enumerated)."""
@@ -852,7 +855,8 @@ class SStr:
     def __str__(self):
         if self.is_concrete():
             return ''.join(chr(x) for x in self.c)
-        raise EngineLimit("str() realisation of symbolic text")
+        _cur.stats['placeholders'] = _cur.stats.get('placeholders', 0) + 1
+        return "<symbolic text>"
 
     def __repr__(self):
         return "<SStr len=%d>" % len(self.c)
@@ -1349,7 +1353,7 @@ class Explorer:
                     raise HarnessError('z3 exception: %s' % e)
                 except Exception as e:       # the analysed code raised something the harness does not expect
                     import traceback
-                    org = 'repo' if getattr(e, '_symx_modelled', False) else exception_origin(e.__traceback__)
+                    org = 'repo' if getattr(e, '_symx_modelled', False) else exception_origin(e.__traceback__, e)
                     if org == 'engine':
                         raise EngineLimit('unsupported operation on a proxy: %s: %s\n%s' % (type(e).__name__, e, traceback.format_exc()[-1500:]))
                     if org == 'harness':
@@ -1376,9 +1380,14 @@ def _num_value(x):
     return x.as_long() if z3.is_int_value(x) else x.as_signed_long()
 
 
-def exception_origin(tb):
+PROXY_NAMES = ('SInt', 'SBool', 'SBytes', 'SStr', 'SChar', 'SDecStr', 'SymTable', 'LInt', 'SFloat', 'SDecF', 'SAmountStr', 'SBytesIO')
+
+
+def exception_origin(tb, exc=None):
     """who raised: 'repo' (the analysed library, possibly inside C / stdlib code it called), 'engine' (a proxy / shim /
     z3 - an unsupported operation) or 'harness'"""
+    if exc is not None and isinstance(exc, (AttributeError, TypeError)) and any(("'%s'" % n) in str(exc) for n in PROXY_NAMES):
+        return 'engine'          # the analysed code used an operation the proxy does not implement
     origin = 'harness'
     verif = os.path.dirname(os.path.dirname(os.path.abspath(__file__))) + os.sep
     repo = os.path.realpath(os.environ.get('VT_REPO', '/repo')) + os.sep
